@@ -111,7 +111,30 @@ def config_snapshot(clf):
     return out
 
 
-def real_runs(ctx, nrun):
+def coverage_edge_family(rng, k):
+    """a crystalline slab under a disordered film whose size is the slab's size +-1, +2: the best region covers a fraction
+    of the atoms right at min_coverage (used when the dispatch proof / correspondence is broken)"""
+    from ase import Atoms
+    from ase.build import bcc100, fcc100
+    slab = [bcc100("Fe", (3, 3, 4), a=2.87, vacuum=8.0), fcc100("Cu", (3, 3, 4), a=3.61, vacuum=8.0), bcc100("Fe", (3, 3, 3), a=2.87, vacuum=8.0)][k % 3]
+    slab.set_pbc(True)
+    n_extra = len(slab) + (-1, 0, 1, 2)[(k // 3) % 4]
+    cell = np.array(slab.get_cell())
+    z_top = slab.positions[:, 2].max()
+    shifts = [i * cell[0] + j * cell[1] for i in (-1, 0, 1) for j in (-1, 0, 1)]
+    pts, tries = [], 0
+    while len(pts) < n_extra and tries < 200000:
+        tries += 1
+        f = rng.random(3)
+        p = f[0] * cell[0] + f[1] * cell[1]
+        p[2] = z_top + 2.0 + 4.0 * f[2]
+        if all(min(np.linalg.norm(p - q + s_) for s_ in shifts) >= 1.3 for q in pts):
+            pts.append(p)
+    a = slab + Atoms(symbols=["O"] * len(pts), positions=pts)
+    return a, "slab+film(%d+%d)" % (len(slab), len(pts))
+
+
+def real_runs(ctx, nrun, directed=False):
     """real classifications: oracle of the property + replay of the recorded finder outputs through the model"""
     import matid.geometry as G
     from matid.classification.classifier import Classifier
@@ -120,7 +143,7 @@ def real_runs(ctx, nrun):
     rng = np.random.default_rng(ctx.seed + 171)
     lines, runs, bad = [], [], []
     for k in range(nrun):
-        a, kind = SC.c01_family(rng, k, max_atoms=ctx.n(80, 150))
+        a, kind = coverage_edge_family(rng, k) if directed else SC.c01_family(rng, k, max_atoms=ctx.n(80, 150))
         cell = np.array(a.get_cell())
         full_rank = abs(np.linalg.det(cell)) > 1e-6
         if not full_rank:
@@ -128,7 +151,9 @@ def real_runs(ctx, nrun):
                 continue
             a.set_cell(np.zeros((3, 3)))         # "no cell at all"
         kw = {} if k % 3 else {"cluster_threshold": float(rng.uniform(2.5, 4.0)), "min_coverage": float(rng.uniform(0.3, 0.7))}
-        if k % 4 == 1:      # tolerances / cell sizes handed over as numpy arrays (the documented "float or list" parameters)
+        if directed:
+            kw = {}
+        if k % 4 == 1 and not directed:      # tolerances / cell sizes handed over as numpy arrays (the documented "float or list" parameters)
             kw = dict(kw, pos_tol=np.array([float(rng.uniform(0.3, 0.7))]), max_cell_size=np.array([float(rng.uniform(6, 12))]))
         caller_arrays = {n_: np.array(v_) for n_, v_ in kw.items() if isinstance(v_, np.ndarray)}
         snap = SC.snapshot(a)
@@ -213,6 +238,9 @@ def run(ctx):
         mism = synthetic_dispatch(ctx, ctx.n(600, 20000))
         m2, bad = real_runs(ctx, ctx.n(48, 1500))
         mism += m2
+        if (mism or broken) and not bad:
+            m3, bad = real_runs(ctx, ctx.n(12, 48), directed=True)
+            mism += m3
     except common.DriverError as e:
         broken.append(("driver", {"error": str(e)[-1000:]}))
     if mism:
